@@ -131,17 +131,18 @@ func init() {
 		s := a[0].(*StrV)
 		for _, c := range s.b {
 			if !c.IsConst() {
-				// environment stub: any float64, with no error, ErrRange or ErrSyntax (documented contract of ParseFloat)
-				e.used("strconv.ParseFloat(symbolic string) = arbitrary float64 with err in {nil, ErrRange, ErrSyntax}")
+				// environment stub: the syntax check of strconv.ParseFloat (decimal form) is done exactly, character
+				// by character; the numeric value is an arbitrary float64 and a range error may or may not occur
+				e.used("strconv.ParseFloat(symbolic string): exact syntax check, arbitrary float64 value, err in {nil, ErrRange}")
+				if !e.floatSyntaxOK(s.b) {
+					return Tuple{e.b.BVu(0, 64), e.newNumError("ParseFloat", "<symbolic>", "ErrSyntax")}
+				}
 				v := e.x.newHidden(Sort{SBV, 64})
 				k := e.x.newHidden(Sort{SBV, 8})
-				if e.decide(e.b.Eq(k, e.b.BVu(0, 8))) {
+				if len(s.b) < 5 || e.decide(e.b.Eq(k, e.b.BVu(0, 8))) {
 					return Tuple{v, nilIface}
 				}
-				if e.decide(e.b.Eq(k, e.b.BVu(1, 8))) {
-					return Tuple{v, e.newNumError("ParseFloat", "<symbolic>", "ErrRange")}
-				}
-				return Tuple{e.b.BVu(0, 64), e.newNumError("ParseFloat", "<symbolic>", "ErrSyntax")}
+				return Tuple{v, e.newNumError("ParseFloat", "<symbolic>", "ErrRange")}
 			}
 		}
 		bits := int(e.term(a[1]).ConstS())
@@ -176,6 +177,45 @@ func init() {
 	intrinsics["(*sync.RWMutex).RLock"] = nop
 	intrinsics["(*sync.RWMutex).RUnlock"] = nop
 	intrinsics["internal/race.Enabled"] = nop
+
+	// sync/atomic: sequential semantics (no concurrency on any interpreted path)
+	for _, ty := range []string{"Int32", "Uint32", "Int64", "Uint64", "Uintptr"} {
+		intrinsics["sync/atomic.Load"+ty] = func(e *Engine, f *frame, a []Value) Value {
+			p := a[0].(*Ptr)
+			if p.s == nil {
+				e.x.goPanic(nil, nil, "nil dereference (atomic load)")
+			}
+			return e.load(p.s)
+		}
+		intrinsics["sync/atomic.Store"+ty] = func(e *Engine, f *frame, a []Value) Value {
+			p := a[0].(*Ptr)
+			if p.s == nil {
+				e.x.goPanic(nil, nil, "nil dereference (atomic store)")
+			}
+			e.store(p.s, a[1])
+			return nil
+		}
+		intrinsics["sync/atomic.Add"+ty] = func(e *Engine, f *frame, a []Value) Value {
+			p := a[0].(*Ptr)
+			v := e.b.Bin(OBvAdd, e.term(e.load(p.s)), e.term(a[1]))
+			e.store(p.s, v)
+			return v
+		}
+		intrinsics["sync/atomic.CompareAndSwap"+ty] = func(e *Engine, f *frame, a []Value) Value {
+			p := a[0].(*Ptr)
+			if e.decide(e.b.Eq(e.term(e.load(p.s)), e.term(a[1]))) {
+				e.store(p.s, a[2])
+				return e.b.tt
+			}
+			return e.b.ff
+		}
+	}
+
+	// time: the local time zone is not read from the operating system; Local behaves as UTC (TZ of the sandbox)
+	intrinsics["time.initLocal"] = func(e *Engine, f *frame, a []Value) Value {
+		e.used("time.Local = UTC (zone files are not read)")
+		return nil
+	}
 
 	// assembly in internal/bytealg
 	intrinsics["internal/bytealg.IndexByteString"] = func(e *Engine, f *frame, a []Value) Value {
@@ -717,4 +757,66 @@ func (e *Engine) newNumError(fn, num, sentinel string) Value {
 	g := pkg.Members[sentinel].(*ssa.Global)
 	e.store(s.kids[2], e.load(e.global(g)))
 	return &Iface{t: types.NewPointer(nt), v: &Ptr{s}}
+}
+
+// floatSyntaxOK decides (forking on symbolic characters) whether s is accepted by strconv.ParseFloat's decimal
+// syntax: [+-]? ( digits [. digits*] | . digits ) ( [eE] [+-]? digits )?   or  [+-]? (inf|infinity|nan), any case.
+// Underscores and hexadecimal floats are syntax errors here (base-prefixed forms never reach this call from ion-go).
+func (e *Engine) floatSyntaxOK(s []*Term) bool {
+	b := e.b
+	is := func(c *Term, ch byte) bool { return e.decide(b.Eq(c, b.BVu(uint64(ch), 8))) }
+	isDigit := func(c *Term) bool {
+		return e.decide(b.And(b.Bin(OBvULE, b.BVu('0', 8), c), b.Bin(OBvULE, c, b.BVu('9', 8))))
+	}
+	isLetter := func(c *Term, ch byte) bool { return is(c, ch) || is(c, ch-32) }
+	i := 0
+	if i < len(s) && (is(s[i], '+') || is(s[i], '-')) {
+		i++
+	}
+	word := func(w string) bool {
+		if len(s)-i != len(w) {
+			return false
+		}
+		for k := 0; k < len(w); k++ {
+			if !isLetter(s[i+k], w[k]) {
+				return false
+			}
+		}
+		return true
+	}
+	if len(s)-i == 3 || len(s)-i == 8 {
+		if i < len(s) && !isDigit(s[i]) && !is(s[i], '.') {
+			return word("inf") || word("nan") || word("infinity")
+		}
+	}
+	nd := 0
+	for i < len(s) && isDigit(s[i]) {
+		i++
+		nd++
+	}
+	if i < len(s) && is(s[i], '.') {
+		i++
+		for i < len(s) && isDigit(s[i]) {
+			i++
+			nd++
+		}
+	}
+	if nd == 0 {
+		return false
+	}
+	if i < len(s) && (is(s[i], 'e') || is(s[i], 'E')) {
+		i++
+		if i < len(s) && (is(s[i], '+') || is(s[i], '-')) {
+			i++
+		}
+		ne := 0
+		for i < len(s) && isDigit(s[i]) {
+			i++
+			ne++
+		}
+		if ne == 0 {
+			return false
+		}
+	}
+	return i == len(s)
 }
